@@ -11,5 +11,7 @@ import (
 	_ "verifharness/comp/csync"
 	_ "verifharness/comp/lifo"
 	_ "verifharness/comp/linkedlist"
+	_ "verifharness/comp/refcount"
+	_ "verifharness/comp/routine"
 	_ "verifharness/comp/seq"
 )
